@@ -78,9 +78,9 @@ type sdListener struct {
 }
 
 func (l *sdListener) Init(*slog.Logger) error { return nil }
-func (l *sdListener) ID() string             { return l.id }
-func (l *sdListener) Address() string        { return "pipe:" + l.id }
-func (l *sdListener) Protocol() string       { return "pipe" }
+func (l *sdListener) ID() string              { return l.id }
+func (l *sdListener) Address() string         { return "pipe:" + l.id }
+func (l *sdListener) Protocol() string        { return "pipe" }
 func (l *sdListener) Serve(e listeners.EstablishFn) {
 	l.establish.Store(e)
 }
@@ -112,8 +112,8 @@ func (h *sdHook) OnConnectAuthenticate(cl *mqtt.Client, pk packets.Packet) bool 
 // sdAllow admits every connection (sd.race).
 type sdAllow struct{ mqtt.HookBase }
 
-func (h *sdAllow) ID() string                                                 { return "sd-allow" }
-func (h *sdAllow) Provides(b byte) bool                                       { return b == mqtt.OnConnectAuthenticate }
+func (h *sdAllow) ID() string                                              { return "sd-allow" }
+func (h *sdAllow) Provides(b byte) bool                                    { return b == mqtt.OnConnectAuthenticate }
 func (h *sdAllow) OnConnectAuthenticate(*mqtt.Client, packets.Packet) bool { return true }
 
 // sdRaceOnce: one established client, one accepted connection whose goroutine is spawned (the listener's
